@@ -1,1 +1,177 @@
-Require Import V.Lib V.GoPath V.C13_Model.
+(* C13 — property theorems only.  Each is closed by [exact] of a lemma proved in
+   C13_Proofs.v and followed by Print Assumptions. *)
+Require Import V.Lib V.GoPath V.C13_Model V.C13_Proofs.
+From Coq Require Import Permutation.
+Open Scope list_scope.
+Open Scope N_scope.
+
+(* ---------- request side ---------- *)
+
+(* 1 vs 4 byte lengths: the reference decoder recovers every length below 2^31 *)
+Theorem C13_size_roundtrip :
+  forall n rest, n < 2147483648 -> decode_size (encode_size n ++ rest) = Some (n, rest).
+Proof. exact size_roundtrip. Qed.
+Print Assumptions C13_size_roundtrip.
+
+(* every record the client writes is a multiple of 8 bytes long and is read back exactly
+   (type, request id, content) by a responder that takes the padding length from the header *)
+Theorem C13_records_wellformed :
+  forall ty id c rest, ty < 256 -> id < 65536 -> len c <= 65535 ->
+  len (write_record ty id c) mod 8 = 0 /\
+  parse_record (write_record ty id c ++ rest) = Some (ty, id, c, rest).
+Proof. intros; split; [apply write_record_aligned | apply parse_write_record; assumption]. Qed.
+Print Assumptions C13_records_wellformed.
+
+(* for EVERY body length: the stdin stream is cut into records of at most 65500 bytes, none of
+   them empty except the terminator, and a responder reading records up to the first empty one
+   gets exactly the body bytes and is positioned right after the stream *)
+Theorem C13_stream_concat :
+  forall ty id data rest, ty < 256 -> id < 65536 ->
+  (forall c, In c (chunks (N.to_nat MAXW) data) -> c <> [] /\ len c <= MAXW) /\
+  concat (chunks (N.to_nat MAXW) data) = data /\
+  read_stream ty id (stream_wire ty id data ++ rest) = Some (data, rest).
+Proof.
+  intros ty id data rest Hty Hid. split; [intros c; apply stream_chunks_bounds|].
+  split; [apply chunks_concat, maxw_pos | apply stream_roundtrip; assumption].
+Qed.
+Print Assumptions C13_stream_concat.
+
+(* name-value pairs: encoding then decoding is the identity for all names and values < 2^31 *)
+Theorem C13_pairs_roundtrip :
+  forall ps, (forall kv, In kv ps -> len (fst kv) < 2147483648 /\ len (snd kv) < 2147483648) ->
+  decode_pairs (concat (map encode_pair ps)) = Some ps.
+Proof. exact pairs_roundtrip. Qed.
+Print Assumptions C13_pairs_roundtrip.
+
+(* The whole request, for EVERY parameter map passing the code's size test, EVERY map iteration
+   order and EVERY body: a conforming responder receives role Responder, flags 0, exactly the
+   pairs (as a permutation of the map) and exactly the body bytes. *)
+Theorem C13_request_exact_partial :
+  forall ps order body w,
+  (forall kv, In kv ps -> 8 + len (fst kv) + len (snd kv) <= MAXW) ->
+  Permutation ps order ->
+  request_wire order body = Ok w ->
+  exists got, responder_receive w = Some (1, 0, got, body_bytes body) /\ Permutation ps got.
+Proof. exact request_roundtrip_any_order. Qed.
+Print Assumptions C13_request_exact_partial.
+
+Example C13_request_exact_nonvacuous :
+  exists w, request_wire [(bs "SCRIPT_NAME", bs "/x.php"); (bs "EMPTY", [])] (Some (bs "a=1")) = Ok w /\
+            responder_receive w = Some (1, 0, [(bs "SCRIPT_NAME", bs "/x.php"); (bs "EMPTY", [])], bs "a=1").
+Proof. eexists. split; vm_compute; reflexivity. Qed.
+
+(* ... but the statement with the property's own premise ("fits a single 65 500-byte record") is
+   false of the code: writePairs tests 8+len(k)+len(v), so a 10-byte name with a 65485-byte value,
+   whose encoding is exactly 65500 bytes, arrives cut to 65482 bytes. *)
+Theorem C13_request_exact_fits_refuted :
+  exists k v, fits (k, v) = true /\
+    exists w v', request_wire [(k, v)] None = Ok w /\
+                 responder_receive w = Some (1, 0, [(k, v')], []) /\ len v' < len v.
+Proof. exact pairs_fit_refuted. Qed.
+Print Assumptions C13_request_exact_fits_refuted.
+
+(* writing never panics as long as every name leaves room for the cut (len(k) <= 65492) *)
+Theorem C13_request_no_panic :
+  forall ps body, (forall kv, In kv ps -> 8 + len (fst kv) <= MAXW) -> exists w, request_wire ps body = Ok w.
+Proof. exact request_wire_total. Qed.
+Print Assumptions C13_request_no_panic.
+
+(* ---------- response side ---------- *)
+
+(* record.read's slicing never goes out of range, for EVERY byte string from the peer *)
+Theorem C13_record_read_no_panic : forall conn, exists r, record_read conn = Ok r.
+Proof. exact record_read_no_panic. Qed.
+Print Assumptions C13_record_read_no_panic.
+
+Theorem C13_stream_reader_no_panic :
+  forall conn sizes, exists x, sr_read_all (sr_init conn) sizes [] = Ok x.
+Proof. intros; apply sr_read_all_no_panic. Qed.
+Print Assumptions C13_stream_reader_no_panic.
+
+(* Demultiplexing is exact: for EVERY sequence of output/stderr records (any content split, any
+   padding length, any interleaving), followed by EndRequest and anything after it, and for
+   EVERY sequence of caller buffer sizes: the bytes handed to the caller are a prefix of the
+   concatenated output contents, the diverted bytes a prefix of the concatenated stderr
+   contents, the only error is EOF, and at EOF both are complete. *)
+Theorem C13_demux_exact :
+  forall recs tail sizes d e s',
+  Forall valid_rec recs ->
+  sr_read_all (sr_init (wire_of recs ++ enc_rec end_rec ++ tail)) sizes [] = Ok (d, e, s') ->
+  (e = None \/ e = Some REOF) /\
+  (exists orest, stdout_of recs = d ++ orest /\ (e = Some REOF -> orest = [])) /\
+  (exists erest, contents_of T_STDERR recs = stderr_of s' ++ erest /\ (e = Some REOF -> erest = [])).
+Proof. exact demux_exact. Qed.
+Print Assumptions C13_demux_exact.
+
+Example C13_demux_exact_nonvacuous :
+  sr_read_all (sr_init (wire_of [(6, bs "St", 3); (7, bs "warn", 0); (6, bs "atus", 1); (6, [], 0)]
+                        ++ enc_rec end_rec ++ bs "junk")) [3; 0; 100; 5; 5]%nat []
+  = Ok (bs "Status", Some REOF,
+        {| s_conn := [0; 0; 0; 0; 0; 0; 0; 0] ++ bs "junk"; s_buf := []; s_stderr := [bs "warn"] |}).
+Proof. vm_compute. reflexivity. Qed.
+
+(* ---------- dispatch ---------- *)
+
+(* An existing file with the rule's extension (any letter case) under the rule's path, not
+   excepted, is sent to a responder with the trimmed request path as script — for EVERY rule
+   list, file system and path — PROVIDED the path can be split for that rule. *)
+Theorem C13_ext_always_dispatched_partial :
+  forall cs stat_ok open_ok rules i p r,
+  In r rules -> rule_matches cs r p = true -> allowed cs r p = true ->
+  stat_ok (trim_right p) = true ->
+  r_ext r <> [] -> last_byte (r_ext r) <> Some SLASH ->
+  has_suffix (to_lower (trim_right p)) (to_lower (r_ext r)) = true ->
+  can_split cs r (trim_right p) = true ->
+  exists j, serve cs stat_ok open_ok rules i p = ODispatch j (trim_right p).
+Proof. exact serve_ext_dispatched. Qed.
+Print Assumptions C13_ext_always_dispatched_partial.
+
+(* With case-insensitive paths (the default) and a split string equal to the extension up to
+   letter case (the php preset), the proviso always holds: the clause is true in full. *)
+Theorem C13_ext_always_dispatched_default :
+  forall stat_ok open_ok rules i p r,
+  In r rules -> rule_matches false r p = true -> allowed false r p = true ->
+  stat_ok (trim_right p) = true ->
+  r_ext r <> [] -> last_byte (r_ext r) <> Some SLASH ->
+  to_lower (r_split r) = to_lower (r_ext r) ->
+  has_suffix (to_lower (trim_right p)) (to_lower (r_ext r)) = true ->
+  exists j, serve false stat_ok open_ok rules i p = ODispatch j (trim_right p).
+Proof.
+  intros. eapply serve_ext_dispatched; eauto. apply can_split_of_suffix; assumption.
+Qed.
+Print Assumptions C13_ext_always_dispatched_default.
+
+Example C13_ext_always_dispatched_nonvacuous :
+  serve false (fun _ => true) (fun _ => false) [php_rule] 0 (bs "/B.PHP. ") = ODispatch 0 (bs "/B.PHP").
+Proof. vm_compute. reflexivity. Qed.
+
+(* Without the proviso the clause is false: with CASE_SENSITIVE_PATH the existing file /B.PHP
+   under the php preset goes to the next handler (the static file server). *)
+Theorem C13_ext_always_dispatched_refuted :
+  exists stat_ok open_ok rules p r,
+    In r rules /\ rule_matches true r p = true /\ allowed true r p = true /\
+    stat_ok (trim_right p) = true /\ r_ext r <> [] /\ last_byte (r_ext r) <> Some SLASH /\
+    has_suffix (to_lower (trim_right p)) (to_lower (r_ext r)) = true /\
+    serve true stat_ok open_ok rules 0 p = ONext.
+Proof. exact ext_dispatch_case_sensitive_refuted. Qed.
+Print Assumptions C13_ext_always_dispatched_refuted.
+
+(* script name and path info are split at the FIRST occurrence of the configured split string
+   (compared case-folded unless paths are case sensitive): DOCUMENT_URI ++ PATH_INFO is the script
+   path, DOCUMENT_URI ends with the split string and no shorter prefix does *)
+Theorem C13_split_env_spec :
+  forall cs r f d pi,
+  split_at cs r f = Ok (d, pi) ->
+  d ++ pi = f /\
+  has_suffix (fold cs d) (fold cs (r_split r)) = true /\
+  exists pos, length d = (pos + length (r_split r))%nat /\
+    forall k, (k < pos)%nat -> has_prefix (skipn k (fold cs f)) (fold cs (r_split r)) = false.
+Proof. exact split_at_spec. Qed.
+Print Assumptions C13_split_env_spec.
+
+(* ... and once canSplit has accepted the path the split cannot go out of range (in the model's
+   ASCII case folding; Go's Unicode folding can change the length — finding F-C13-3) *)
+Theorem C13_split_total :
+  forall cs r f, can_split cs r f = true -> exists d pi, split_at cs r f = Ok (d, pi).
+Proof. exact split_at_total. Qed.
+Print Assumptions C13_split_total.
